@@ -29,7 +29,7 @@ MIN_MEN = 26
 #     after 1.e4 e5 2.Nf3 Nc6 3.Bc4 Bc5 4.O-O the bound from the initial position is 11 > 7.
 W_CASTLE = "e2e4 e7e5 g1f3 b8c6 f1c4 f8c5 e1g1".split()
 KEY_CASTLE = "bound-ignores-castling:r1bqk1nr/pppp1ppp/2n5/2b1p3/2B1P3/5N2/PPPP1PPP/RNBQ1RK1_b_kq_-"
-CASTLE_SLACK = 6          # plies: one castling move is counted as up to 4 moves of that side
+CASTLE_SLACK = 4          # plies: castling replaces two king moves and one rook move (3 moves) by one move
 #  B: the distance heuristic does not know en passant: from a position whose e.p. capture leads to the goal
 #     it answers "unreachable" (after 1.e4 a6 2.e5 d5 the goal 3.exd6 gets INT_MAX from the position before it).
 W_EP = "e2e4 a7a6 e4e5 d7d5 e5d6".split()
@@ -375,6 +375,10 @@ def run(ctx):
                                   "proof-kernel and extended-kernel search incl. all pruning rules and caches, trapped bishops, last-move analysis, "
                                   "verdict assembly: no proof; random legal games are run through the real code and any `illegal` verdict, "
                                   "inadmissible bound, pruned witness move or wrong forced last move is reported with the game as replay")
+    ctx.notes["known_finding_attribution"] = ("bound violations met in random games are attributed to finding A (castling) only when the continuation "
+                                              "contains a castling move and the excess is <= %d plies, to finding B (en passant) only when the very next "
+                                              "move of the game is an en-passant capture, and only while the fixed witness of that finding still fails and "
+                                              "its key is a listed known finding; everything else is a VIOLATION" % CASTLE_SLACK)
     ctx.notes["kernel_abstraction"] = "C16_kernel_abstraction is kept as a statement (Definition ..._statement); not proved"
     rng = ctx.rng
     t_start = time.time()
@@ -425,7 +429,7 @@ def run(ctx):
     ctx.count("enoughRemaining_pairs", len(pairs))
 
     # (4b) games
-    n_games = ctx.scale(700, 20000)
+    n_games = ctx.scale(700, 5000)
     games = []
     if os.path.exists(CORPUS):
         for blk in open(CORPUS).read().split("\n"):
@@ -577,6 +581,7 @@ def run(ctx):
                         ctx.count("bound_violations_attributed_to_known_finding_enpassant")
                     elif ncastle and castle_known and bok and not touch and b <= rem + CASTLE_SLACK:
                         ctx.count("bound_violations_attributed_to_known_finding_castling")
+                        ctx.counts["castling_bound_max_excess_plies"] = max(ctx.counts.get("castling_bound_max_excess_plies", 0), b - rem)
                     else:
                         worst = (i, what, b)              # keep the latest (shortest remaining game)
             elif t[0] == "U":
@@ -635,6 +640,7 @@ def run(ctx):
         return run_filter_batch(tool, [games[gi].fens[i] for gi, i in ch], per_pos / 2 if rnd else per_pos, extra=variants[1 if rnd else 0])
     light_res = list(pool.map(light_run, list(enumerate(chunks))))
     illegal_cases = []
+    stage1_proofs = []
     for ci, (ch, res) in enumerate(zip(chunks, light_res)):
         for (gi, i), (fen, data, note) in zip(ch, res):
             ctx.evaluated()
@@ -648,13 +654,13 @@ def run(ctx):
             if kind == "illegal":
                 illegal_cases.append((gi, i, fen, data))
             if kind == "legal" and data.get("proof") is not None:
-                pass
+                stage1_proofs.append((fen, data["proof"]))
     ctx.count("stage1_positions", len(light))
 
     # (5c) iterated mode on a subset: proof games -> certified checker
-    n_deep = ctx.scale(110, 3000)
+    n_deep = ctx.scale(140, 1500)
     ctx.log("first stage of the tool on %d positions (%.1fs)" % (len(light), time.time() - t_start))
-    deep_timeout = ctx.scale(10, 120)
+    deep_timeout = ctx.scale(10, 60)
     order = list(range(len(games)))
     rng.shuffle(order)
     # prefer variety: games with special moves first
@@ -673,7 +679,7 @@ def run(ctx):
     finally:
         shutil.rmtree(workdir, ignore_errors=True)
     ctx.log("iterated mode on %d positions (%.1fs)" % (len(deep), time.time() - t_start))
-    proofs = []
+    proofs = [(fen, p) for fen, p in stage1_proofs]
     for gi, (data, rc, err, dt) in zip(deep, deep_res):
         g = games[gi]
         if rc == -1:
@@ -682,36 +688,40 @@ def run(ctx):
         ctx.evaluated()
         kind = verdict_kind(data)
         ctx.count("deep_" + kind + ("_timeout" if rc == 124 and kind != "legal" else ""))
+        if kind == "unknown-fail":
+            ctx.count("deep_unknown-fail_info_" + "_".join(data.get("info", ["-"]))[:60])
         if rc not in (0, 124):
             problems.append(("texelutil proofgame -f -o crashed on a reachable position (exit %d): %s" % (rc, err[-300:].replace("\n", " | ")),
                              {"fen": g.goal, "moves": g.moves}, "crash:" + fen_key(g.goal)))
         if kind == "illegal":
             illegal_cases.append((gi, len(g.moves), g.goal, data))
         if kind == "legal":
-            proofs.append((gi, data["proof"]))
+            proofs.append((g.goal, data["proof"]))
+            ctx.count("deep_proof_shorter_than_game" if len(data["proof"]) < len(g.moves) else
+                      "deep_proof_same_length_as_game" if len(data["proof"]) == len(g.moves) else "deep_proof_longer_than_game")
     # proofs through SAN conversion (real TextIO) and the certified checker
     if proofs:
         san_out = run_lines(harness, ["SAN " + " ".join(p) for _, p in proofs])
         cin, cidx = [], []
-        for (gi, p), so in zip(proofs, san_out):
+        for (goal, p), so in zip(proofs, san_out):
             if not so or not so.startswith("U"):
                 problems.append(("a proof game printed by the tool is not readable as moves by TextIO: %s" % so,
-                                 {"goal": games[gi].goal, "proof": p}, "proof:" + fen_key(games[gi].goal)))
+                                 {"goal": goal, "proof_san": p}, "proof:" + fen_key(goal)))
                 continue
-            cin.append("C %s | %s" % (games[gi].goal, so[1:].strip()))
-            cidx.append((gi, p))
+            cin.append("C %s | %s" % (goal, so[1:].strip()))
+            cidx.append((goal, p))
         cout = run_lines(ml, cin)
-        for (gi, p), inp, o in zip(cidx, cin, cout):
+        for (goal, p), inp, o in zip(cidx, cin, cout):
             ctx.evaluated()
             ctx.traces_validated += 1
             ctx.count("proofgames_checked")
             ctx.count("proofgame_plies_total", len(p))
             if o != "1":
                 problems.append(("a proof game printed by the tool is rejected by the certified checker (%s)" % o,
-                                 {"goal": games[gi].goal, "proof_san": p, "checker_input": inp, "checker": o},
-                                 "proof:" + fen_key(games[gi].goal)))
-            elif len(ctx.samples) < 5:
-                ctx.sample({"goal": games[gi].goal, "tool_proof_len": len(p), "game_len": len(games[gi].moves), "checker": o})
+                                 {"goal": goal, "proof_san": p, "checker_input": inp, "checker": o},
+                                 "proof:" + fen_key(goal)))
+            elif len(p) > 4 and len(ctx.samples) < 5:
+                ctx.sample({"goal": goal, "tool_proof_plies": len(p), "tool_proof_start": " ".join(p[:8]) + " ...", "checker": o})
 
     # false `illegal` verdicts: minimise and report
     seen_keys = set()
@@ -729,6 +739,8 @@ def run(ctx):
                          {"minimised_game": moves, "final_fen": mfen, "verdict": mdata, "original_game": g.moves[:i], "original_fen": fen,
                           "original_verdict": data}, key))
         try:
+            if REPO != "/repo":
+                raise OSError("scratch tree: corpus untouched")
             with open(CORPUS, "a") as f:
                 f.write("# seed %d: illegal verdict on a reachable position\n%s\n" % (ctx.seed, " ".join(moves)))
         except OSError:
@@ -737,8 +749,20 @@ def run(ctx):
     pool.shutdown(wait=False)
 
     # ---------------------------------------------------------------- verdict
+    per_cat = {}
     for what, replay, key in problems:
-        ctx.violation(what, replay, key=key)
+        cat = (key or what).split(":")[0]
+        per_cat[cat] = per_cat.get(cat, 0) + 1
+    shown = {}
+    for what, replay, key in problems:
+        cat = (key or what).split(":")[0]
+        shown[cat] = shown.get(cat, 0) + 1
+        if shown[cat] <= 3:                      # at most three replays per kind of failure; the total is recorded
+            if isinstance(replay, dict):
+                replay = dict(replay, failures_of_this_kind_on_this_run=per_cat[cat])
+            ctx.violation(what, replay, key=key)
+    for cat, n in per_cat.items():
+        ctx.count("failures_" + cat, n)
     if corr_bad:
         inp, diff = corr_bad[0]
         # finder for a broken piece-count correspondence: the code against the proved invariant on
